@@ -258,6 +258,30 @@ func VerifC19URLNumbers() {
 	vObserve(u.RawQuery)
 }
 
+func init() { vRegister("VerifC19URLStrings", VerifC19URLStrings) }
+
+// VerifC19URLStrings: string options whose text happens to spell a boolean,
+// a number or a URL parameter name survive the URL round trip unchanged.
+func VerifC19URLStrings() {
+	pool := []string{"true", "false", "t", "f", "0", "1", "yes", "", "TRUE", "f=x"}
+	cfg := defaultConfig()
+	cfg.Focus = pool[vChoice("focus", len(pool))]
+	cfg.TagFocus = pool[vChoice("tagfocus", len(pool))]
+	cfg.Hide = pool[vChoice("hide", len(pool))]
+	cfg.CallTree = vBool("calltree")
+	u, _ := cfg.makeURL(vMustURL("http://x/ui/"))
+	back := defaultConfig()
+	if err := back.applyURL(u.Query()); err != nil {
+		vAssert(false, "C19.url.apply: a URL produced from a configuration is rejected")
+		return
+	}
+	vAssert(back.Focus == cfg.Focus, "C19.url.strings: a string option changed in the URL round trip")
+	vAssert(back.TagFocus == cfg.TagFocus, "C19.url.strings: a string option changed in the URL round trip")
+	vAssert(back.Hide == cfg.Hide, "C19.url.strings: a string option changed in the URL round trip")
+	vAssert(back.CallTree == cfg.CallTree, "C19.url.bools: a boolean option changed in the URL round trip")
+	vObserve(u.RawQuery)
+}
+
 func init() { vRegister("VerifC19Resave", VerifC19Resave) }
 
 // VerifC19Resave: saving a configuration under an existing name stores the
